@@ -122,11 +122,11 @@ func configShape() ([]cfgLeaf, []cfgLevel) {
 	return leaves, levels
 }
 
-var c16Values = []string{"plain", "${V}", "pre-$V-post", "  $E  ", "  padded  ", "${project.version}/${dist-name}", "~/keys/k"}
+var c16Values = []string{"plain", "${V}", "pre-$V-post", "  $E  ", "  padded  ", "${project.version}/${dist-name}", "~/keys/k", "a$$b"}
 
 // c16ValuesThorough: further shapes - a bare variable name, brace/percent look-alikes, doubled and adjacent
 // references, '$' at the end, an unset variable, references padded with blanks, non-ASCII text.
-var c16ValuesThorough = []string{"V", "{V}", "%V%", "a b", "ünï-cödé", "$V", "${V}${V}", "$V$V", "x${V}", "${V}x", "${UNSET}", "$UNSET", "a$", " ${V} ", "${V} ${W}", "$W-$V", "$V_x", "${V}_x"}
+var c16ValuesThorough = []string{"a$$b", "$$", "$${V}", "V", "{V}", "%V%", "a b", "ünï-cödé", "$V", "${V}${V}", "$V$V", "x${V}", "${V}x", "${UNSET}", "$UNSET", "a$", " ${V} ", "${V} ${W}", "$W-$V", "$V_x", "${V}_x"}
 
 // hostileEnv answers every variable name (and anything else it is asked) with a marker: a value that contains no
 // '$' must still come back as written.
